@@ -404,15 +404,19 @@ Definition chart_equiv_b (a b : chart) : bool :=
 (** C06.  aux = (the implementation's parse of the canonical rendering (LF, no BOM, canonical section
     order, no unknown sections), tags of the unknown sections added, expected (instrument, difficulty)
     keys, was a required section removed?). *)
-Definition C06_aux := (parse_out * list str * list (str * str) * bool)%type.
+Definition C06_aux := (parse_out * list str * list (str * str) * bool * Z)%type.
 Definition pair_eqb2 (a b : str * str) : bool := str_eqb (fst a) (fst b) && str_eqb (snd a) (snd b).
 Definition C06_spec (aux : C06_aux) (o : parse_out) : bool :=
-  let '(base, unknown, keys, removed) := aux in
+  let '(base, unknown, keys, removed, n_events) := aux in
   if removed then match o with Err e => errkind_eqb e EValue | Ok _ => false end
   else
     match base, o with
     | Ok (ch0, logs0), Ok (ch, logs) =>
-        chart_equiv_b ch ch0
+        (* the canonical rendering itself: built from valid lines only, so nothing is reported and every body line of the tempo,
+           event and instrument sections has become an event (a note event per tick) of the part its section feeds *)
+        match logs0 with [] => true | _ => false end
+        && (Z.of_nat (length (all_timed ch0) + length (st_anchor (c_sync ch0))) =? n_events)
+        && chart_equiv_b ch ch0
         && perm_b log_eqb logs (logs0 ++ map LUnhandled unknown)
         && perm_b pair_eqb2 (track_keys (c_tracks ch)) keys
         && forallb (fun p => forallb (fun q => str_eqb (it_instr (snd q)) (fst p) && str_eqb (it_diff (snd q)) (fst q))
